@@ -4,6 +4,7 @@ CONSTANTS
   NN = 3
   PP = 1
   Samples = 1
+  Slice = 0
   Chains = 1
   PropOnly = TRUE
 CONSTRAINT Diag
